@@ -262,7 +262,7 @@ func c15Scenarios(seed uint64, thorough bool) []c15Sc {
 		}
 		return f
 	}
-	selsB := []int{0, 1, 8, 9, 15, 31, 32 + 15}
+	selsB := []int{0, 1, 8, 15, 32 + 15}
 	if thorough {
 		selsB = nil
 		for sel := 0; sel < 64; sel++ {
@@ -282,14 +282,14 @@ func c15Scenarios(seed uint64, thorough bool) []c15Sc {
 	// two and three unknown blocks: order (last to first) and the early exit on deletion
 	for a := 0; a < 16; a++ {
 		for b := 0; b < 16; b++ {
-			if !thorough && (a*16+b)%5 != int(seed%5) {
+			if !thorough && (a*16+b)%8 != int(seed%8) {
 				continue
 			}
 			add(c15Sc{entry: "recv", flags: c15FlagWord(15), rto: rtoPeer, dispatch: dFwdBoth, blocks: []uint64{blockFlag(a), blockFlag(b)}})
 		}
 	}
 	// (C) every kind of report-to endpoint x every receiver x a few flag words
-	selsC := []int{15, 31}
+	selsC := []int{31}
 	if thorough {
 		selsC = []int{1, 2, 4, 8, 15, 31, 47}
 	}
@@ -307,7 +307,7 @@ func c15Scenarios(seed uint64, thorough bool) []c15Sc {
 	}
 	// (D) SendBundle: own source (all flag words) and foreign source (deleted at once)
 	for sel := 0; sel < 64; sel++ {
-		if !thorough && sel%4 != int(seed%4) && sel != 15 && sel != 31 {
+		if !thorough && sel%8 != int(seed%8) && sel != 15 && sel != 31 {
 			continue
 		}
 		for _, d := range []int{dFwdBoth, dAllFailed, dDelivered, dNoAgent} {
